@@ -13,6 +13,7 @@ import (
 	"encoding/json"
 	"flag"
 	"fmt"
+	"github.com/google/badwolf/triple/predicate"
 	"math/rand"
 	"os"
 	"strings"
@@ -43,7 +44,13 @@ type opEvent struct {
 	Ok    bool                `json:"ok"`
 	Names []string            `json:"names"`
 	Obs   []storeops.GraphObs `json:"obs"`
+	// Sparse: the store was NOT observed after this operation (histories in which listings are rare: something that
+	// is only refreshed by being read shows there); only the result flag is judged, the model state moves on
+	Sparse bool `json:"sparse"`
 }
+
+// sparseEvery > 0: observe the store after an operation only one time in sparseEvery (seeded)
+var sparseEvery int
 
 type lEvent struct {
 	Ev   string `json:"ev"`
@@ -144,6 +151,12 @@ func apply(st storage.Store, names []string, op, g string, b []int) bool {
 		}
 	default:
 		must(fmt.Errorf("unknown op %q", op))
+	}
+	if sparseEvery > 0 && rng.Intn(sparseEvery) != 0 {
+		tw.Emit(opEvent{Ev: "Op", Op: op, G: g, B: trace.Ints(b), Ok: ok, Names: []string{}, Obs: []storeops.GraphObs{}, Sparse: true})
+		stats["op:"+op]++
+		stats["unobserved"]++
+		return ok
 	}
 	n, obs := storeops.Observe(ctx, u, st, names)
 	tw.Emit(opEvent{Ev: "Op", Op: op, G: g, B: trace.Ints(b), Ok: ok, Names: n, Obs: obs})
@@ -425,6 +438,9 @@ func randomHist(names []string, steps int, lookups bool, anchorEvery int) {
 		}
 		g := names[rng.Intn(len(names))]
 		r := rng.Intn(100)
+		if sparseEvery > 0 && r >= 16 && rng.Intn(3) == 0 {
+			r = rng.Intn(16) // more creations, drops and look-ups of graphs between two observations
+		}
 		switch {
 		case r < 8:
 			if apply(st, names, "NewGraph", g, nil) {
@@ -498,6 +514,20 @@ func options(contents, budget int, full bool) {
 			want = map[int]bool{}
 			for i := 1; i <= u.NT(); i++ {
 				want[i] = true
+			}
+		case 1:
+			// a graph that never held a triple with a temporal predicate of its own, but holds predicate-valued
+			// temporal OBJECTS (reification): the filters on the object field look at those
+			st = memory.NewStore()
+			g, err = st.NewGraph(ctx, gname)
+			must(err)
+			cur = map[int]bool{}
+			anchor(st, names, "Reset")
+			want = map[int]bool{}
+			for i := 1; i <= u.NT(); i++ {
+				if u.Triple(i).Predicate().Type() == predicate.Immutable {
+					want[i] = true
+				}
 			}
 		default:
 			want = map[int]bool{}
@@ -617,6 +647,7 @@ func main() {
 	lookups := fs.Bool("lookups", false, "issue all lookups (C02)")
 	sample := fs.Int("sample-lookups", 40, "1/N of revisits also get lookups")
 	steps := fs.Int("steps", 1000, "random history length")
+	sparse := fs.Int("sparse", 0, "random: observe the store after an operation only one time in N (0 = always)")
 	anchorEvery := fs.Int("anchor-every", 20000, "emit an Anchor every N events")
 	contents := fs.Int("contents", 6, "number of graph contents (options)")
 	budget := fs.Int("budget", 10000, "requests (options)")
@@ -638,6 +669,7 @@ func main() {
 	case "tour":
 		tour(*edges, names, *lookups, *anchorEvery, *sample)
 	case "random":
+		sparseEvery = *sparse
 		randomHist(names, *steps, *lookups, *anchorEvery)
 	case "options":
 		options(*contents, *budget, *full)
